@@ -88,6 +88,8 @@ def cases(tier, seed):
                 hist.append("fin:" + sym)
         out.append({"cfg": cfg, "history": hist})
     rng.shuffle(out)
+    if th:
+        out.insert(0, {"kind": "suite", "file": "tests/test_validity.py"})
     return out
 
 
@@ -262,6 +264,9 @@ def run_history(cfg, ops, H):
 
 
 def run_case(case, ctx):
+    if case.get("kind") == "suite":
+        from ..suite import suite_case
+        return suite_case(case)
     cfg = case["cfg"]
     H = Hist()
     nt = 0
